@@ -196,8 +196,11 @@ def build_inputs(rng) -> list[Inp]:
         f += [(f"kt{ti}." + n, o, s, e) for n, o, s, e in _struct(to, "<", HV_KT)]
         p = 10
         for ei in range(4):
+            if to + p + 21 > len(raw):
+                break
             sz = struct.unpack_from("<I", raw, to + p + 2)[0]
-            if not sz:
+            # (a free entry's stale contents are not walkable: the field list simply ends there)
+            if not sz or sz > 0x4000 or to + p + sz > len(raw):
                 break
             f += [(f"kt{ti}.e{ei}." + n, o, s, e) for n, o, s, e in _struct(to + p, "<", HV_ENT)]
             bounds += [to + p, to + p + 21]
